@@ -161,6 +161,26 @@ func c07programs() []c07prog {
 			fr := g.SubEnd(sub, g.Task("task", "A", sub.ID))
 			g.Wrap(g.Seq(fr, g.Task("task", "B", "")))
 		}},
+		{name: "subthree", pts: 40, build: func(g *eng.Graph) {
+			// THREE tokens at one embedded sub-process node (a parallel fork straight into it): one is inside, two wait for
+			// their turn when the cancel comes (D44)
+			st := g.Add("startEvent", "start", "")
+			f := g.Add("parallelGateway", "F", "")
+			u := g.Add("subProcess", "U", "")
+			us := g.Add("startEvent", "us", u.ID)
+			a := g.Add("task", "A", u.ID)
+			ue := g.Add("endEvent", "ue", u.ID)
+			b := g.Add("task", "B", "")
+			en := g.Add("endEvent", "end", "")
+			g.Connect(st, f, nil)
+			for i := 0; i < 3; i++ {
+				g.Connect(f, u, nil)
+			}
+			g.Connect(us, a, nil)
+			g.Connect(a, ue, nil)
+			g.Connect(u, b, nil)
+			g.Connect(b, en, nil)
+		}},
 		{name: "boundary", pts: 18, build: func(g *eng.Graph) {
 			a := g.Task("task", "A", "")
 			g.Wrap(a)
